@@ -651,3 +651,33 @@ pub fn cosim_spin() {
 pub fn cosim_notify() {
     COSIM.with(|c| { if let Some(cs) = c.borrow_mut().as_mut() { cs.notified += 1; if cs.policy == Policy::OnNotify || matches!(cs.policy, Policy::Late(_)) { if cs.policy == Policy::OnNotify { cs.dev.service(); } } } });
 }
+
+/// C03 thorough tier: a real run of more than 65536 submissions on one queue (both 16-bit indices wrap by
+/// themselves, no hook pre-set), completions in random order, interleaved wrong-token polls.
+pub fn soak<const N: usize>(ctx: &mut Ctx, flags: u8, submissions: u64) {
+    let mut rig = match Rig::<N>::new(ctx, flags & 1 != 0, flags & 2 != 0, false, 0) { Some(r) => r, None => return };
+    let mut done = 0u64;
+    while done < submissions {
+        let k = 1 + ctx.rng.below(N as u64) as usize;
+        for _ in 0..k { let n_in = ctx.rng.below(2) as usize; if rig.add(ctx, &vec![8; n_in], &vec![8; 1]).is_some() { done += 1; } }
+        // complete everything in a random order
+        loop {
+            let cands: Vec<usize> = (0..rig.subs.len()).filter(|k| !rig.subs[*k].completed).collect();
+            if cands.is_empty() { break; }
+            let c = *ctx.rng.pick(&cands); rig.device_complete(ctx, c, None, None);
+        }
+        // pop in used order, sometimes trying a wrong token first
+        while let Some(tok) = rig.used_order.first().copied() {
+            if rig.subs.len() > 1 && ctx.rng.chance(1, 8) {
+                let other = rig.subs.iter().position(|s| s.token != tok).unwrap();
+                let t2 = rig.subs[other].token; rig.pop(ctx, other, t2);
+            }
+            let k = rig.subs.iter().position(|s| s.token == tok).unwrap();
+            if !rig.pop(ctx, k, tok) { break; }
+        }
+        if done % 4096 < k as u64 { rig.queries(ctx); rig.snapshots(ctx); }
+    }
+    ctx.tr.note_n("soak_submissions", done);
+    rig.queries(ctx); rig.snapshots(ctx);
+    rig.finish(ctx);
+}
